@@ -33,6 +33,7 @@ def run(ctx, repo):
                    'from_actions dispatches by name with the logged argument')
     ctx.rule('R2', "three-way letter agreement: action_letter == letters written by Jumper.* == bib_trial dispatch ('-' is a no-op)")
     ctx.rule('R3', 'trials / trial_objs read only the log')
+    ctx.rule('R5', 'a refused trial changes nothing on the card (effect-before-raise on the Jumper trial methods)')
     ctx.rule('R4', 'to_matrix exports every bar position: its header iterates self.heights unsliced and unfiltered')
 
     # ---- R1
@@ -179,6 +180,24 @@ def run(ctx, repo):
     if not any('unlogged state change' in f.construct for f in ctx.findings):
         ctx.ok('R1', '%d observers (methods and properties of both classes) change no state, aliases included' % n_obs)
 
+    # ---- R5 a refused trial leaves no trace on the card either (the log records nothing for it, so the card must not change): the
+    # effect-before-raise analysis of C02 on the four trial methods of Jumper and what they call
+    A5 = EBR(mod.tree)
+    for k in [('Jumper', m_) for m_ in ('cleared', 'failed', 'passed', 'retired')]:
+        if k not in A5.methods:
+            raise AnalysisError('anchor vanished: Jumper.%s' % k[1])
+        A5.analyse(k)
+    seen5 = set()
+    for r in A5.reports:
+        key5 = (r['entry'], r['write'])
+        if key5 in seen5:
+            continue
+        seen5.add(key5)
+        ctx.finding('R5', '%s::%s.%s::%s before a refusal' % (HJ, r['entry'][0], r['entry'][1], r['write']), HJ, r['line'],
+                    '%s.%s: %s happens before the call is refused: the card changes although nothing is logged, so the replayed competition and the '
+                    're-imported card differ from the original' % (r['entry'][0], r['entry'][1], r['write']), {'path': r['trace']})
+    if not A5.reports:
+        ctx.ok('R5', 'the trial methods of Jumper change nothing before a refusal (%d abstract states)' % A5.states_explored)
     # ---- R4 the exported card names every bar position: the header of to_matrix iterates self.heights itself (no slice, no filter);
     # a height that nobody has tried yet is state (bar_height, dismissed flags, 'started') and must survive export / import
     tm = Cm.get('to_matrix')
